@@ -1598,8 +1598,10 @@ theorem ph_header_versionless {c enc auth sess s} (h : Ph c enc .idle auth sess 
     nC (step s (.recv (.header false true))).2 = 0 ∧ nD (step s (.recv (.header false true))).2 = 0 := by
   obtain ⟨h1, h2, h3, h4, h5, h6, h7, h8⟩ := h
   have e : step s (.recv (.header false true)) =
-      ({ s with headerSeen := true, streamIdSet := s.streamIdSet || true, streamVersionSet := false, listener := .nonSaslFields },
-       [send { s with headerSeen := true, streamIdSet := s.streamIdSet || true, streamVersionSet := false } .nonSaslQuery]) := by
+      ({ s with headerSeen := true, streamIdSet := s.streamIdSet || true, streamVersionSet := false, csiAvail := false,
+                listener := .nonSaslFields },
+       [send { s with headerSeen := true, streamIdSet := s.streamIdSet || true, streamVersionSet := false, csiAvail := false }
+          .nonSaslQuery]) := by
     rcases htls with h | h
     · subst h
       simp [step, recv, h2, h3, handleStream, hv, h1, hns, startNonSaslAuth, h4]
@@ -2390,5 +2392,133 @@ theorem run_ainv (evs : List Ev) (s : St) (hi : AInv s) (hm : MInv s) (hd : Alon
   induction evs generalizing s with
   | nil => exact hi
   | cons e es ih => simp only [run]; exact ih _ (step_ainv s e hi hm hd.1) (step_minv s e hm) hd.2
+
+/-! ### C04, application side: an application that sends only while `isConnected()` -/
+
+/-- the application sends requests only while `isConnected()` and calls `connectToServer` only while disconnected -/
+def appUsesSession (s : St) : Ev → Prop
+  | .sendIq => isConnected s = true
+  | .connectToServer => s.conn = .disconnected
+  | _ => True
+
+/-- with TLS required: the pre-TLS invariant, "session flag only on a connected socket", and "no session on a clear link" -/
+def GInv (s : St) : Prop := Inv s ∧ MInv s ∧ (¬ NC s → s.sessionStarted = false)
+
+theorem nc_step (s : St) (e : Ev) (hnc : NC s) (h3 : appWaits s e) :
+    NC (step s e).1 ∨ (e = .socketConnected ∧ s.conn = .connecting) := by
+  cases e with
+  | connectToServer =>
+    have hd : s.conn = .disconnected := h3
+    left; simp only [step, hd, if_true]; exact nc_of_not_connected (by simp)
+  | socketConnected =>
+    by_cases hc : s.conn = .connecting
+    · exact Or.inr ⟨rfl, hc⟩
+    · left; simp only [step, hc, if_false]; exact hnc
+  | socketError => exact Or.inl hnc
+  | socketDisconnected =>
+    left
+    simp only [step]
+    split
+    · exact nc_of_not_connected (onSocketDisconnected_down _ rfl).2
+    · split
+      · exact nc_of_not_connected (by simp)
+      · exact hnc
+  | recv el => exact Or.inl (recv_nc el s hnc).2
+  | sendIq => exact Or.inl (sendIq_nc s hnc).2
+
+theorem nC_starttlsHandle (s : St) (e : El) : nC (starttlsHandle s e).2 = 0 := by
+  unfold starttlsHandle; split <;> simp
+
+/-- on an unencrypted link with TLS required no step can open a session -/
+theorem clear_step_nC0 (s : St) (e : Ev) (hreq : s.cfg.tls = .required) (hclear : ¬ NC s) (hpre : PreTls s)
+    (h3 : appWaits s e) : nC (step s e).2 = 0 := by
+  have hc : s.conn = .connected := by
+    by_cases hc : s.conn = .connected
+    · exact hc
+    · exact absurd (nc_of_not_connected hc) hclear
+  have he : s.encrypted = false := by
+    cases hb : s.encrypted
+    · rfl
+    · exact absurd (fun _ => hb) hclear
+  cases e with
+  | connectToServer => simp only [step]; split <;> simp
+  | socketConnected => simp only [step]; split <;> simp
+  | socketError => simp [step]
+  | socketDisconnected => simp only [step]; cnt_crush
+  | sendIq => exact absurd h3 hclear
+  | recv el =>
+    simp only [step]
+    unfold recv
+    split
+    · simp
+    · split
+      · simp
+      · split
+        · simp
+        · split
+          · simp
+          · unfold dispatch
+            rcases hpre with hl | hl
+            · rw [hl]
+              by_cases hf : ∃ f, el = .features f
+              · obtain ⟨f, rfl⟩ := hf
+                simp only [idleHandle, El.isStanza, Bool.false_eq_true, false_and, if_false, idleHandle', handleFeatures]
+                rcases handleStarttls_required s f hreq he with h | h <;> rw [h] <;> simp
+              · exact (idleHandle_nf s el hl (fun f hf' => hf ⟨f, hf'⟩)).2
+            · rw [hl]
+              exact nC_starttlsHandle s el
+
+theorem step_ginv (s : St) (e : Ev) (hreq : s.cfg.tls = .required) (hg : GInv s) (ha : appUsesSession s e) :
+    (∀ o ∈ (step s e).2, o.clearOk) ∧ GInv (step s e).1 := by
+  obtain ⟨hinv, hm, hs3⟩ := hg
+  have h3 : appWaits s e := by
+    cases e with
+    | sendIq =>
+      have hi : isConnected s = true := ha
+      simp [isConnected] at hi
+      show NC s
+      by_cases hnc : NC s
+      · exact hnc
+      · have := hs3 hnc
+        rw [this] at hi; cases hi.2
+    | connectToServer => exact ha
+    | socketConnected => trivial
+    | socketError => trivial
+    | socketDisconnected => trivial
+    | recv el => trivial
+  have hsafe := step_safe s e hreq hinv h3
+  refine ⟨hsafe.1, hsafe.2, step_minv s e hm, ?_⟩
+  intro hpost
+  by_cases hnc : NC s
+  · rcases nc_step s e hnc h3 with h | h
+    · exact absurd h hpost
+    · obtain ⟨rfl, hcg⟩ := h
+      simp only [step, hcg, if_true, handleStart]
+      cases hss : s.sessionStarted
+      · rfl
+      · have := hm hss
+        rw [hcg] at this; cases this
+  · have hpre : PreTls s := by
+      rcases hinv with h | h
+      · exact absurd h hnc
+      · exact h
+    have h0 := clear_step_nC0 s e hreq hnc hpre h3
+    rcases step_effD s e with he | he
+    · rw [he.2 h0]; exact hs3 hnc
+    · exact he.2.2.1
+
+theorem run_ginv (evs : List Ev) (s : St) (hreq : s.cfg.tls = .required) (hg : GInv s)
+    (ha : Along appUsesSession s evs) : (∀ o ∈ (run s evs).2, o.clearOk) ∧ GInv (run s evs).1 := by
+  induction evs generalizing s with
+  | nil => exact ⟨fun o ho => (by cases ho), hg⟩
+  | cons e es ih =>
+    have h1 := step_ginv s e hreq hg ha.1
+    have h2 := ih (step s e).1 (by simpa using hreq) h1.2 ha.2
+    refine ⟨?_, h2.2⟩
+    intro o ho
+    simp only [run] at ho
+    rcases List.mem_append.mp ho with ho | ho
+    · exact h1.1 o ho
+    · exact h2.1 o ho
 
 end Qx.C10
